@@ -141,6 +141,72 @@ def check_retry(case: dict):
     return None
 
 
+def check_retry_pair(case: dict):
+    """Two consecutive exchanges on one connection: answers that arrive after the first exchange has returned are
+    left over in the receive queue when the second one starts; the second must still obey the reference model."""
+    from msmart.lan import LAN
+    version, r = case["version"], case["r"]
+    p1, p2 = case["pattern1"], case["pattern2"]
+    net = vloop.Net()
+    out = {}
+
+    async def main(loop):
+        dev = SimDevice(loop, version=version, device_id=9, token=TOKEN, key=KEY, ac=ModelAC())
+        net.listen("10.0.0.9", 6444, dev)
+        cur = {"pattern": p1, "n": 0}
+
+        def on_data(dev_, conn, frame):
+            i = cur["n"]
+            cur["n"] += 1
+            d = cur["pattern"][i] if i < len(cur["pattern"]) else None
+            return ("drop",) if d is None else ("answer", {"delay": d})
+
+        lan = LAN("10.0.0.9", 6444, 9)
+        if version == 3:
+            await lan.authenticate(TOKEN, KEY)
+        else:
+            await lan._connect()
+        dev.on_data = on_data
+        res = []
+        for pattern in (p1, p2):
+            cur["pattern"], cur["n"] = pattern, 0
+            t0 = loop.time()
+            n0 = len(dev.transmissions)
+            rec = {}
+            try:
+                rec["frames"] = len(await lan.send(FRAME, retries=r))
+            except Exception as e:
+                rec["exc"] = e
+            rec["t"] = loop.time() - t0
+            rec["n"] = len(dev.transmissions) - n0
+            res.append(rec)
+            if "exc" in rec:
+                break
+            await asyncio.sleep(case.get("gap", 7.0))
+        out["res"] = res
+        try:
+            lan._disconnect()
+        except Exception:
+            pass
+
+    vloop.run(main, net)
+    for which, (pattern, rec) in enumerate(zip((p1, p2), out["res"])):
+        want, t_want, n_want = reference_retry(r, pattern)
+        exc = rec.get("exc")
+        tag = f"exchange {which + 1}"
+        if rec["n"] != n_want:
+            return ("pair/count", f"{tag}: {rec['n']} transmissions, reference model says {n_want} (patterns {p1} / {p2})")
+        if abs(rec["t"] - t_want) > 1e-3:
+            return ("pair/time", f"{tag}: ended at {rec['t']:.3f}, reference model says {t_want:.3f} (patterns {p1} / {p2})")
+        if want == "timeout":
+            if not isinstance(exc, TimeoutError):
+                return ("pair/no-timeout", f"{tag}: every transmission went unanswered but the outcome was {exc!r} / {rec.get('frames')} frame(s) "
+                        f"(patterns {p1} / {p2}: answers left over from the first exchange)")
+        elif exc is not None or not rec.get("frames"):
+            return ("pair/outcome", f"{tag}: an answer arrived but the outcome was {exc!r} / {rec.get('frames')}")
+    return None
+
+
 # ----------------------------------------------------------------------------- part B / C
 def check_faults(case: dict):
     from msmart.device import AirConditioner as AC
@@ -277,7 +343,11 @@ def check_faults(case: dict):
 
 
 def check_case(case: dict):
-    return check_retry(case) if case["part"] == "A" else check_faults(case)
+    if case["part"] == "A":
+        return check_retry(case)
+    if case["part"] == "A2":
+        return check_retry_pair(case)
+    return check_faults(case)
 
 
 def replay(ctx, case):
@@ -290,6 +360,9 @@ def _run_one(ctx, case):
         want, t, n = reference_retry(case["r"], case["pattern"])
         nt = n > 1
         cls = f"A/v{case['version']}/r={case['r']}/{want}/{case.get('level', 'lan')}"
+    elif case["part"] == "A2":
+        nt = True
+        cls = f"A2/v{case['version']}/r={case['r']}"
     else:
         nt = True
         cls = f"{case['part']}/v{case['version']}/{'established' if case.get('established') else 'fresh'}/{len(case['faults'])}faults"
@@ -314,6 +387,24 @@ def run(ctx) -> None:
                         c2 = dict(case, level=level)
                         ctx.check(c2, lambda c: _run_one(ctx, c))
     ctx.sweep("part A: retry budget x answer/delay patterns x {V2,V3}", n, True)
+
+    # part A2: pairs of exchanges; the first leaves late answers behind
+    k = 0
+    for version in (2, 3):
+        for r in (2, 3):
+            firsts = [p for p in itertools.product([None] + DELAYS, repeat=r)
+                      if reference_retry(r, list(p))[0] == "frames" and sum(1 for i, d in enumerate(p) if d is not None and 2 * i < reference_retry(r, list(p))[1]) >= 2]
+            seconds = [tuple([None] * r), tuple([0.05] + [None] * (r - 1)), tuple([None] * (r - 1) + [0.05]), tuple([2.05] + [None] * (r - 1))]
+            for p1 in firsts:
+                for p2 in seconds:
+                    k += 1
+                    if not ctx.mine(k):
+                        continue
+                    if ctx.quick and k % 3:
+                        continue
+                    case = {"part": "A2", "version": version, "r": r, "pattern1": list(p1), "pattern2": list(p2)}
+                    ctx.check(case, lambda c: _run_one(ctx, c))
+    ctx.sweep("part A2: exchange with left-over late answers followed by a second exchange", k, not ctx.quick)
 
     m = 0
     combos = [(f,) for f in FAULTS] + list(itertools.product(FAULTS, repeat=2))
